@@ -18,7 +18,7 @@ import (
 )
 
 type Exec struct {
-	effFree map[*ssa.Function]int // effectFree memo: 1 yes, 2 no, 3 in progress
+	effFree  map[*ssa.Function]int // effectFree memo: 1 yes, 2 no, 3 in progress
 	P        *Program
 	syms     *SymTab
 	nextObj  int
